@@ -98,8 +98,11 @@ def inject(rng, d):
     if keys and r < .6:
         k = rng.choice(keys)
         node, _ = gen.deref(props[k])
-        kind = rng.choice(["type", "enum", "range", "arity"])
-        if kind == "enum":
+        kind = rng.choice(["type", "enum", "range", "arity", "overflow"])
+        if kind == "overflow":
+            # what loads gives for an overflowing literal (ANGLE 1e999): a float infinity — a dictionary like any other
+            o[k] = rng.choice([float("inf"), float("-inf")])
+        elif kind == "enum":
             o[k] = "zz-not-a-word"
         elif kind == "range":
             o[k] = rng.choice([-987654, 98765432])
@@ -220,7 +223,9 @@ def explore(ctx, scale=1.0):
                     ctx.violation("list-not-concat", "validate of a list differs from validating its members one by one", rep)
                 ctx.count("variant:list of roots")
             # ---- correspondences ----
-            if all(ord(c) < 128 for c in json.dumps(low, ensure_ascii=False)):
+            if "Infinity" in json.dumps(low):
+                ctx.count("corr:skipped non-finite number (outside the model's decimal numbers)")
+            elif all(ord(c) < 128 for c in json.dumps(low, ensure_ascii=False)):
                 real = collections.Counter((json.dumps(list(e.absolute_path)), e.validator) for e in V.get_schema_validator(root).iter_errors(low))
                 ereqs.append({"op": "errs", "schema": root, "inst": core.enc(low)}); ekeep.append((rep, real))
                 if rng.random() < .3:
